@@ -1,12 +1,13 @@
 import Lean.Data.Json
 import AnonModel.Model.Convert
 import AnonModel.Model.Issuance
+import AnonModel.Model.IssuanceW3C
 import AnonModel.Driver.OpsVerify
 import AnonModel.Driver.OpsProver
 /-! Line-protocol handlers for conversion (C14: `convert`, `convert_w3c`) and issuance (C11: `issue`, `process`). -/
 open Lean
 namespace AnonModel.Driver
-open AnonModel.Convert AnonModel.Issuance
+open AnonModel.Convert AnonModel.Issuance AnonModel.IssuanceW3C
 
 def valuesOfJson : Json → Option Values :=
   listOfJson fun
@@ -68,6 +69,26 @@ def stepIssue (op : String) (j : Json) : Option Json :=
     let m : ReqMeta := { blinding := ← fld mj "blinding" >>= natOfJson, nonce := ← fld mj "nonce" >>= strOfJson }
     let holder ← fld j "holder" >>= natOfJson
     pure (Json.bool (processCredential { values := values, sig := sig } m holder cd))
+  | "issue_w3c" => do
+    let cd ← fld j "cd" >>= credDefOfJson
+    let offerNonce ← fld j "offer_nonce" >>= strOfJson
+    let rj ← fld j "req"
+    let req : CredRequest := { entropy := ← fld rj "entropy" >>= optStrOfJson, proverDid := ← fld rj "prover_did" >>= optStrOfJson,
+                               blinded := ← fld rj "blinded" >>= blindedOfJson, nonce := ← fld rj "nonce" >>= strOfJson }
+    let subj ← fld j "subject" >>= assocOfJson subjValOfJson
+    pure (Json.bool (createCredentialW3C cd { nonce := offerNonce } req subj).isSome)
+  | "process_w3c" => do
+    let cd ← fld j "cd" >>= credDefOfJson
+    let sj ← fld j "sig"
+    let sig : Signature := { key := ← fld sj "key" >>= natOfJson, attrs := ← fld sj "attrs" >>= strPairsOfJson,
+                             holder := ← fld sj "holder" >>= natOfJson, blinding := ← fld sj "blinding" >>= natOfJson,
+                             nonce := ← fld sj "nonce" >>= strOfJson, intact := ← fld sj "intact" >>= boolOfJson }
+    let subj ← fld j "subject" >>= assocOfJson subjValOfJson
+    let sp ← fld j "sig_proof_ok" >>= boolOfJson
+    let mj ← fld j "meta"
+    let m : ReqMeta := { blinding := ← fld mj "blinding" >>= natOfJson, nonce := ← fld mj "nonce" >>= strOfJson }
+    let holder ← fld j "holder" >>= natOfJson
+    pure (Json.bool (processCredentialW3C { subject := subj, sig := sig } sp m holder cd))
   | _ => none
 
 end AnonModel.Driver
